@@ -219,8 +219,8 @@ def cmpOp? : String → Option CmpOp
 def _root_.Zog.CmpOp.toCode : CmpOp → String
   | .eq => "eq" | .lt => "lt" | .lte => "lte" | .gt => "gt" | .gte => "gte"
 
-/-- `(t ID NOT NAME ARGS... OPTS)` -/
-def test? (o : Oracle) : Sexp → Option Test
+/-- `(t ID NOT NAME ARGS... OPTS)`: the test as the builder method makes it, and its options -/
+def testParts? (o : Oracle) : Sexp → Option (Test × TOpts)
   | .list (.atom "t" :: id :: neg :: .atom name :: rest) => do
     let id ← id.nat?
     let neg ← bool? neg
@@ -264,8 +264,10 @@ def test? (o : Oracle) : Sexp → Option Test
         let m ← m.int?; let r ← r.int?
         pure { id := id, code := "", cb := true, pred := fun d => decide (Int.emod (measure d) m = r) }
       | _, _ => none
-    pure (applyOpts base opts)
+    pure (base, opts)
   | _ => none
+
+def test? (o : Oracle) (s : Sexp) : Option Test := (testParts? o s).map (fun p => applyOpts p.1 p.2)
 
 /-- bump a value (the table PostTransform `inc`) -/
 def bump : DVal → DVal
